@@ -223,7 +223,7 @@ def wf_json(j):
             if m is None or parent_for(m) != p or m == s['name']:
                 return False
     for t in j['transitions']:
-        if not has(t['source']):
+        if not has(t['source']) or kind(t['source']) not in owns:
             return False
         tg = t['target']
         if tg is not None:
